@@ -370,8 +370,10 @@ theorem pollNextRequest_open {s s' : St} {r : DReq} (h : pollNextRequest s = (s'
 /-- A successful `insert_request`, spelled out. -/
 theorem insertRequest_ok {s s' : St} {now : Nat} {r : DReq} (h : insertRequest s now r = some s')
     (hp : s'.poisoned = false) :
-    findEntry s r.id = none ∧ ∃ q key w, s.timers.insert now (r.ctx.deadline - now) r.id = (q, .ok key, w) ∧
-      s' = { s with timers := q, inflight := s.inflight ++ [{ id := r.id, cid := r.cid, ctx := r.ctx, timerKey := key }] } := by
+    findEntry s r.id = none ∧ ∃ q key w, s.timers.insert now (clampTimeout (r.ctx.deadline - now)) r.id = (q, .ok key, w) ∧
+      s' = (if w then
+              wakeDispatch { s with timers := q, inflight := s.inflight ++ [{ id := r.id, cid := r.cid, ctx := r.ctx, timerKey := key }] }
+            else { s with timers := q, inflight := s.inflight ++ [{ id := r.id, cid := r.cid, ctx := r.ctx, timerKey := key }] }) := by
   unfold insertRequest at h
   split at h
   · cases h; simp [emit] at hp
